@@ -92,7 +92,8 @@ def run_inprocess(argv: list[str], *, stdin_bytes: bytes | None, chunks: list[in
 
     res = Result()
     raw_in = ChunkedRaw(stdin_bytes or b"", chunks or [])
-    stdin = io.TextIOWrapper(io.BufferedReader(raw_in, buffer_size=8192), encoding="utf-8", errors="strict")
+    # like the interpreter's own sys.stdin on POSIX: no newline translation
+    stdin = io.TextIOWrapper(io.BufferedReader(raw_in, buffer_size=8192), encoding="utf-8", errors="strict", newline="\n")
     if stdin_closed:
         stdin.close()
     sink = FaultySink(out_limit, out_err)
@@ -220,6 +221,12 @@ def gen_text(st: Streams, tier: str, seed: int):
     elif r < 0.5:
         kind = "nonascii"
         doc = "# héllo ☃\n" + doc.replace('"s', '"ß')
+    elif r < 0.54:
+        kind = "bom"
+        doc = "\ufeff" + doc
+    elif r < 0.58:
+        kind = "crlf"
+        doc = doc.replace("\n", "\r\n")
     if kind == "canonical":
         tail = rng.random()
         if tail < 0.1:
